@@ -71,7 +71,7 @@ func runRT(t *testing.T, sc *rtSc) (res verifsim.Result) {
 		}
 		health := make([]lkPeer, len(sc.Peers))
 		copy(health, sc.Peers)
-		goneAt := map[peer.ID]int{} // log length when a "protocol gone" event was delivered
+		goneAt := map[peer.ID]int{}                  // log length when a "protocol gone" event was delivered
 		livenessDeadline := map[time.Duration]bool{} // instants at which a refresh's liveness pass (started with a refresh event) times out
 		sim.Dial = func(p peer.ID, n int) (time.Duration, string) {
 			i, ok := idx[p]
@@ -402,8 +402,8 @@ func isFollowUp(log []verifnet.Exchange, i int) bool {
 	return true
 }
 
-func TestVerif_C12_RoutingTable(t *testing.T) {
-	verifsim.RunCheck(t, verifsim.Check[rtSc]{
+func c12Check() verifsim.Check[rtSc] {
+	return verifsim.Check[rtSc]{
 		Property: "C12", Part: "routing-table",
 		Rule: "rapid: histories of 1-14 events over 2-14 simulated peers: identify-completed / protocols-updated (protocol advertised or not, connected or not), lookups (peers healthy, failing dial, failing or silent on requests; " +
 			"health changes between events), lookups cancelled mid-flight, passes of the low-peers repair over the connected peers, peers already connected (with or without the protocol) when the DHT is constructed, RefreshRoutingTable / ForceRefresh, clock advances past the liveness grace period, Close racing refresh requests; routing-table filter rejecting a drawn subset, lookup-check " +
@@ -483,7 +483,14 @@ func TestVerif_C12_RoutingTable(t *testing.T) {
 			return sc
 		},
 		Run: func(t *testing.T, sc rtSc) verifsim.Result { return runRT(t, &sc) },
-	})
+	}
+}
+
+func TestVerif_C12_RoutingTable(t *testing.T) { verifsim.RunCheck(t, c12Check()) }
+
+// the same generator and oracle driven by Go's coverage-guided fuzzer (thorough tier)
+func FuzzVerif_C12_RoutingTable(f *testing.F) {
+	verifsim.RunFuzz(f, c12Check(), "TestVerif_C12_RoutingTable")
 }
 
 var _ = strings.Contains
